@@ -202,4 +202,68 @@ Section Mirror.
     induction fuel as [|n IH]; intros w f indir outdir es w' f' H; [discriminate|].
     cbn [handle_entries] in H. exact (loop_origin (HE n) IH es w f indir outdir w' f' H).
   Qed.
+  (* ---- the module text of a directory: one declaration per accepted template, one `pub mod` per
+          (UTF-8 named) sub-directory, in entry order, and nothing else ---- *)
+  Inductive ditem := DTemplate (name : bytes) | DDir (d : bytes).
+  Definition render_item (i : ditem) : bytes :=
+    match i with DTemplate name => mod_decl name | DDir d => b "pub mod " ++ d ++ b ";" ++ [10%N; 10%N] end.
+  Definition item_justified (es : list (bytes * node)) (i : ditem) : Prop :=
+    match i with
+    | DTemplate name => exists fn content s code, In (fn, File content) es /\ utf8_valid fn = true /\ In s template_suffixes /\
+                          ends_with fn s = true /\ name = suffix_name fn s /\ compile name content = Accepted code
+    | DDir d => exists sub, In (d, Dir sub) es /\ utf8_valid d = true
+    end.
+
+  Lemma suffix_loop_decls ss : forall w f indir outdir filename content w' f',
+    suffix_loop uni_esc compile w f indir outdir filename content ss = BOk _ (w', f') ->
+    exists items, f' = f ++ flat_map render_item items /\
+      Forall (fun i => exists s code, In s ss /\ ends_with filename s = true /\ i = DTemplate (suffix_name filename s) /\
+                                      compile (suffix_name filename s) content = Accepted code) items.
+  Proof.
+    induction ss as [|s ss IH]; intros w f indir outdir filename content w' f' H.
+    - cbn in H. inversion H; subst. exists []. cbn. now rewrite app_nil_r.
+    - cbn [suffix_loop] in H. destruct (ends_with filename s) eqn:E.
+      + cbv zeta in H. unfold handle_template in H.
+        destruct (compile (suffix_name filename s) content) as [code|diag| |] eqn:C; try discriminate.
+        * destruct (IH _ _ _ _ _ _ _ _ H) as [items [-> F]]. exists (DTemplate (suffix_name filename s) :: items). split.
+          -- cbn [flat_map render_item]. now rewrite <- app_assoc.
+          -- constructor; [exists s, code; repeat split; try assumption; now left|].
+             eapply Forall_impl; [|exact F]. intros i [s' [c' [I' R]]]. exists s', c'. split; [now right|exact R].
+        * destruct (IH _ _ _ _ _ _ _ _ H) as [items [-> F]]. exists items. split; [reflexivity|].
+          eapply Forall_impl; [|exact F]. intros i [s' [c' [I' R]]]. exists s', c'. split; [now right|exact R].
+      + destruct (IH _ _ _ _ _ _ _ _ H) as [items [-> F]]. exists items. split; [reflexivity|].
+        eapply Forall_impl; [|exact F]. intros i [s' [c' [I' R]]]. exists s', c'. split; [now right|exact R].
+  Qed.
+
+  Lemma justified_tail e es i : item_justified es i -> item_justified (e :: es) i.
+  Proof.
+    destruct i as [name|d]; cbn [item_justified].
+    - intros [fn [c [s [code [I R]]]]]. exists fn, c, s, code. split; [now right|exact R].
+    - intros [sub [I V]]. exists sub. split; [now right|exact V].
+  Qed.
+
+  Theorem module_text_lemma rec : forall es w f indir outdir w' f',
+    entries_loop uni_esc compile rec w f indir outdir es = BOk _ (w', f') ->
+    exists items, f' = f ++ flat_map render_item items /\ Forall (item_justified es) items.
+  Proof.
+    induction es as [|[filename [content|sub]] rest IH]; intros w f indir outdir w' f' H.
+    - cbn in H. inversion H; subst. exists []. cbn. now rewrite app_nil_r.
+    - cbn [entries_loop] in H. destruct (utf8_valid filename) eqn:V.
+      + destruct (suffix_loop uni_esc compile w f indir outdir filename content template_suffixes) as [[w1 f1]| |] eqn:S; try discriminate.
+        destruct (suffix_loop_decls _ _ _ _ _ _ _ _ _ S) as [i1 [-> F1]]. destruct (IH _ _ _ _ _ _ H) as [i2 [-> F2]].
+        exists (i1 ++ i2). split; [now rewrite flat_map_app, app_assoc|]. apply Forall_app. split.
+        * eapply Forall_impl; [|exact F1]. intros i [s [code [I [E [-> C]]]]]. cbn [item_justified].
+          exists filename, content, s, code. split; [now left|]. tauto.
+        * eapply Forall_impl; [|exact F2]. intros i. apply justified_tail.
+      + destruct (IH _ _ _ _ _ _ H) as [i2 [-> F2]]. exists i2. split; [reflexivity|].
+        eapply Forall_impl; [|exact F2]. intros i. apply justified_tail.
+    - cbn [entries_loop] in H. destruct (utf8_valid filename) eqn:V.
+      + destruct (rec (announce_read w (indir ++ [47%N] ++ filename)) modrs_header (indir ++ [47%N] ++ filename) (pjoin outdir filename) sub) as [[w2 modrs]| |]; try discriminate.
+        destruct (IH _ _ _ _ _ _ H) as [i2 [-> F2]]. exists (DDir filename :: i2). split.
+        * cbn [flat_map render_item]. now rewrite <- !app_assoc.
+        * constructor; [cbn [item_justified]; exists sub; split; [now left|exact V]|].
+          eapply Forall_impl; [|exact F2]. intros i. apply justified_tail.
+      + destruct (IH _ _ _ _ _ _ H) as [i2 [-> F2]]. exists i2. split; [reflexivity|].
+        eapply Forall_impl; [|exact F2]. intros i. apply justified_tail.
+  Qed.
 End Mirror.
